@@ -33,6 +33,9 @@ def gen_dep(rng, i):
             pc = parse_constraint(r)
             if not pc.is_empty() and not pc.is_any():
                 d["python"] = r; break
+    if rng.random() < 0.08:
+        # a whole major series written with one-, two- or three-component bounds (what 'collapse the range to == X' must leave alone)
+        d["python"] = P11.major_boundary_range(rng)
     if rng.random() < 0.25: d["platform"] = rng.choice(["linux", "win32", "darwin"])
     if rng.random() < 0.35:
         d["markers"] = MI.gen_marker(rng, depth=2, leaves=rng.randint(1, 2), focus=["str", "pv", "pfv"])[0]
